@@ -3,17 +3,19 @@ import CaresProps.C09
 # C09 — non-vacuity of the whole-run probe theorems (concrete runs, kernel-evaluated)
 
 Companion of `CaresProps/C09.lean` (`probe_only_failed_servers_run`, `probe_noninterference_run`,
-`one_probe_per_send_partial`, `failed_probe_releases_pending`): the guarded semantics really evaluates its assertions,
-the assertions can fail, the bounds are attained, and "a failed probe releases `probe_pending`" as runs — time-out and
-failed write (the pinned C code left the flag set: finding F48-C09, repaired in `server_increment_failures`) — with
-the residue: a probe ended by `ares_cancel` counts no failure and keeps the flag.
+`one_probe_per_send_partial`, `failed_probe_releases_pending`, `cancel_releases_probes`,
+`probe_early_failure_releases`): the guarded semantics really evaluates its assertions, the assertions can fail, the
+bounds are attained, and "a failed probe releases `probe_pending`" as runs — time-out and failed write (the pinned C
+code left the flag set: finding F48-C09, repaired in `server_increment_failures`) — and a probe ended by `ares_cancel`
+or by an early failure of its own `ares_send_nolock` releases it through its callback (finding F49-C09, repaired:
+`server_probe_cb` gets the probed server and resets the flag).
 -/
 namespace Cares.C09
 open Cares.Chan
 
 /-- the assertion is not vacuous: a probe to server 1 (no failures) is refused, and so is one to the failed server 0
     when the triggering request is missing from the pick log -/
-example : (guardGo (exec 10) (.sendNolock (some 1) true true exSpec .probe []) exStP).1.outOfFuel = true ∧
+example : (guardGo (exec 10) (.sendNolock (some 1) true true exSpec (.probe 1) []) exStP).1.outOfFuel = true ∧
     probeSendOk 0 exStP = false ∧
     probeSendOk 0 { (exStP.modServer 0 fun v => { v with probePending := true }) with
       picks := [(0, 1, false, [(1, 0), (2, 0), (0, 1)])] } = true := by decide
@@ -36,7 +38,7 @@ def exReact : St :=
 example :
     let r := (exec 80 (.sendNolock none false true exSpec (.user 1) [1]) exReact).1
     r.nextKey = 3 ∧ r.reactSeq = 1 ∧ r.doneToks = [1] ∧
-    r.qs.map (fun q => (q.key, q.owner)) = [(1, .user 10000), (2, .probe)] ∧ r.outOfFuel = false := by decide
+    r.qs.map (fun q => (q.key, q.owner)) = [(1, .user 10000), (2, .probe 0)] ∧ r.outOfFuel = false := by decide
 
 /-- a probe completes (here: timeout status): its query is gone, the user's query and tokens are as before, no event is emitted -/
 example :
@@ -52,9 +54,8 @@ example :
     `probe`, `nextKey = 4`).  The pinned C code cleared the flag only in `end_query(server ≠ NULL)` and so left it set
     here (finding F48-C09, repaired in `server_increment_failures`): with the flag still set the same request sends
     **no** probe (one query, `nextKey = 3`) — the last two lines of the run.
-    Residue (`exCancelled`): `ares_cancel` releases a probe in flight without a failure of its server and without
-    `end_query` — the flag stays set and the later request sends no probe (in the C code as well: `ares_cancel` calls
-    the callback and `ares_free_query` only). -/
+    (`exCancelled`, below: `ares_cancel` releases a probe in flight without a failure of its server and without
+    `end_query` — finding F49-C09, repaired in `server_probe_cb`.) -/
 def okReply : Reply := { id := 7, name := "6578", qtype := 1, qclass := 1, rcode := 0, an := 1, ttls := [60], len := 20 }
 def exAnswered : St :=
   (exec 200 (.processRead 100)
@@ -66,13 +67,13 @@ def exLater (s : St) : St :=
 def exCancelled : St := (exec 200 .cancel exAnswered).1.settle
 
 example :
-    exAnswered.doneToks = [1] ∧ exAnswered.qs.map (fun q => (q.key, q.owner)) = [(1, .probe)] ∧
+    exAnswered.doneToks = [1] ∧ exAnswered.qs.map (fun q => (q.key, q.owner)) = [(1, .probe 0)] ∧
     exAnswered.servers.map (fun v => (v.id, v.failures, v.probePending, v.nextRetry)) =
       [(0, 1, true, 0), (1, 0, false, 0), (2, 0, false, 0)] ∧
     exProbeTimedOut.qs.map (·.key) = [] ∧
     exProbeTimedOut.servers.map (fun v => (v.id, v.failures, v.probePending, v.nextRetry)) =
       [(0, 2, false, 7000), (1, 0, false, 0), (2, 0, false, 0)] ∧
-    (exLater exProbeTimedOut).qs.map (fun q => (q.key, q.owner)) = [(2, .user 2), (3, .probe)] ∧
+    (exLater exProbeTimedOut).qs.map (fun q => (q.key, q.owner)) = [(2, .user 2), (3, .probe 0)] ∧
     (exLater exProbeTimedOut).nextKey = 4 ∧
     (exLater exProbeTimedOut).outOfFuel = false ∧ (exLater exProbeTimedOut).modelFaults = [] ∧
     (exLater exProbeTimedOut).obsFaults = [] ∧
@@ -80,11 +81,77 @@ example :
       (fun q => (q.key, q.owner)) = [(2, .user 2)] ∧
     (exLater (exProbeTimedOut.modServer 0 fun v => { v with probePending := true })).nextKey = 3 := by decide
 
+/-- finding F49-C09 (repaired): `ares_cancel` with a probe in flight.  The walk releases the probe query and calls
+    its callback `server_probe_cb(server 0)`, which resets `probe_pending` (`cancel_releases_probes`): afterwards no
+    query is left, server 0 still has its one failure (a cancel is not a failure of the server) and is no longer marked
+    as being probed, and a later request (`exLater`, chance 1/1) probes it again — key 3, owner `probe 0`, flag set.
+    Before the repair the callback was a no-op: the flag stayed `true` for good and `exLater exCancelled` created the
+    user's query only (that pinned behaviour is the last line: the same later request from the state with the flag
+    forced back to `true` sends no probe). -/
 example :
     exCancelled.qs.map (·.key) = [] ∧ exCancelled.outOfFuel = false ∧ exCancelled.modelFaults = [] ∧
     exCancelled.servers.map (fun v => (v.id, v.failures, v.probePending, v.nextRetry)) =
-      [(0, 1, true, 0), (1, 0, false, 0), (2, 0, false, 0)] ∧
-    (exLater exCancelled).qs.map (fun q => (q.key, q.owner)) = [(2, .user 2)] := by decide
+      [(0, 1, false, 0), (1, 0, false, 0), (2, 0, false, 0)] ∧
+    (exLater exCancelled).qs.map (fun q => (q.key, q.owner)) = [(2, .user 2), (3, .probe 0)] ∧
+    (exLater exCancelled).servers.map (fun v => (v.id, v.failures, v.probePending)) =
+      [(0, 1, true), (1, 0, false), (2, 0, false)] ∧
+    (exLater exCancelled).outOfFuel = false ∧ (exLater exCancelled).modelFaults = [] ∧
+    (exLater exCancelled).obsFaults = [] ∧
+    (exLater (exCancelled.modServer 0 fun v => { v with probePending := true })).qs.map
+      (fun q => (q.key, q.owner)) = [(2, .user 2)] := by decide
+
+/-- the hypotheses of `cancel_releases_probes` hold of the example state (probe key 1 to server 0 in flight) … -/
+theorem exAnswered_cancelPre : CancelPre exAnswered := by
+  refine ⟨⟨by decide, ?_⟩, by decide, ?_⟩
+  · intro v hv hp
+    have h0 : ∀ v ∈ exAnswered.servers, v.probePending = true → v.id = 0 := by decide
+    have h1 : (exAnswered.query? 1).map (·.owner) = some (.probe 0) := by decide
+    right
+    cases hq : exAnswered.query? 1 with
+    | none => rw [hq] at h1; cases h1
+    | some q =>
+      rw [hq] at h1
+      refine ⟨1, q, hq, ?_⟩
+      rw [h0 v hv hp]; simpa using h1
+  · intro k q pid hq _
+    have hall : ∀ q ∈ exAnswered.qs, q.key ∈ exAnswered.all := by decide
+    rw [← query?_key hq]; exact hall q (query?_mem hq)
+
+/-- … and the theorem gives what the run `exCancelled` shows: after the cancel no server is marked as being probed -/
+example : ∀ v ∈ (exec 200 .cancel exAnswered).1.servers, v.probePending = false :=
+  (cancel_releases_probes 200 exAnswered exAnswered_cancelPre (by decide) (by decide)).2.2.2.2 (by decide) (by decide)
+
+/-- `probe_early_failure_releases` on a concrete state: server 0 has been flagged by `ares_probe_failed_server`, the
+    probe's own `ares_send_nolock` fails before a query exists (a name of 260 text bytes does not serialise): status
+    EFORMERR, no query created, the flag is down again.  The start state satisfies `ProbeInvH (some 0)` (flag without
+    query, server 0 exempt), which is what `probe_pending_has_probe` asks of it.  (The length of the name is
+    established by lemma, not by evaluation: the kernel evaluates operations on long strings very slowly.) -/
+def exLongName : String := String.ofList (List.replicate 520 '6')
+theorem exLongName_length : exLongName.length = 520 := by
+  unfold exLongName
+  rw [String.length_ofList, List.length_replicate]
+theorem long_of_length (nm : String) (h : nm.length = 520) : nameTextLen nm > 255 := by
+  unfold nameTextLen
+  omega
+example :
+    let s := exStP.modServer 0 fun v => { v with probePending := true }
+    let r := exec 10 (.sendNolock (some 0) true true { name := exLongName, qtype := 1 } (.probe 0) []) s
+    s.servers.map (fun v => (v.id, v.probePending)) = [(0, true), (1, false), (2, false)] ∧
+    r.2 = .formerr ∧ r.1.qs.length = 0 ∧ r.1.nextKey = s.nextKey ∧
+    r.1.servers.map (fun v => (v.id, v.probePending)) = [(0, false), (1, false), (2, false)] ∧
+    r.1.outOfFuel = false := by
+  intro s r
+  have e : r = (releaseProbe 0 (genQid 70000 s).2, .formerr) :=
+    (probe_early_failure_releases 8 (some 0) true true { name := exLongName, qtype := 1 } 0 [] s).2.1
+      (by decide) rfl (long_of_length _ exLongName_length)
+  rw [e]
+  decide
+
+example : ProbeInvH (some 0) (exStP.modServer 0 fun v => { v with probePending := true }) := by
+  refine ⟨by decide, fun v hv hp => Or.inl ?_⟩
+  have h0 : ∀ v ∈ (exStP.modServer 0 fun v => { v with probePending := true }).servers,
+      v.probePending = true → v.id = 0 := by decide
+  rw [h0 v hv hp]
 
 /-- why `probe_noninterference_run` is a frame statement and not "the user's outcome does not depend on
     `retryChance`": request 1 is in flight on the UDP connection 100 to server 0 when that server is marked failed;
@@ -118,7 +185,7 @@ example :
     (exShare 1).servers.map (fun v => (v.id, v.failures, v.probePending)) = [(0, 2, false), (1, 0, false)] ∧
     (exShare 1).outOfFuel = false ∧ (exShare 1).modelFaults = [] ∧
     exShareLater.qs.map (fun q => (q.key, q.owner, q.conn)) =
-      [(0, .user 1, some 101), (1, .user 2, some 101), (3, .user 3, some 101), (4, .probe, some 102)] ∧
+      [(0, .user 1, some 101), (1, .user 2, some 101), (3, .user 3, some 101), (4, .probe 0, some 102)] ∧
     exShareLater.servers.map (fun v => (v.id, v.failures, v.probePending)) = [(0, 2, true), (1, 0, false)] ∧
     exShareLater.outOfFuel = false ∧ exShareLater.modelFaults = [] ∧ exShareLater.obsFaults = [] := by decide
 
